@@ -131,7 +131,7 @@ impl Gen<'_> {
         let n = self.pick_name();
         let fresh = self.fresh();
         let cfg = self.cfg.clone();
-        match self.rng.below(20) {
+        match self.rng.below(19) {
             0..=3 => {
                 let key = if self.rng.chance(2, 3) { Some(self.new_key(&n)) } else { None };
                 out.push(admin_req(&cfg, "db.create", Some(&n), key.as_deref(), &fresh));
@@ -157,10 +157,20 @@ impl Gen<'_> {
                 out.push(admin_req(&cfg, "db.set_api_key", Some(&n), key.as_deref(), &fresh));
             }
             13..=15 => out.push(admin_req(&cfg, "db.remove_api_key", Some(&n), None, &fresh)),
-            16 => out.push(Op::Restart),
-            17 => out.push(Op::Fixture(n)),
+            16 => out.push(if self.rng.chance(1, 2) { Op::Restart } else { Op::Crash }),
+            17 => {
+                // work inside a database (as the admin): make it dirty, flush it, switch read-only on/off
+                let (m, pvar) = *self.rng.pick(&[("doc.add", "d"), ("doc.add", "d"), ("db.flush", "d"), ("db.set_read_only", "ro"), ("db.set_read_only", "d"), ("collection.set_read_only", "ro"), ("doc.update", "d")]);
+                if let Op::Req(mut r) = admin_req(&cfg, m, None, None, &fresh) {
+                    r.target = Target::Db { name: n, pct: false };
+                    if let Body::Rpc { pvar: p, .. } = &mut r.body {
+                        *p = pvar.into();
+                    }
+                    out.push(Op::Req(r));
+                }
+            }
             _ => {
-                // a per-database key holder tries a root-scope management call
+                // a per-database key holder tries a root-scope management call (18)
                 if let Some(k) = self.keys.iter().next().cloned() {
                     let m = *self.rng.pick(&["db.set_api_key", "db.remove_api_key", "db.close", "db.create"]);
                     if let Op::Req(mut r) = admin_req(&cfg, m, Some(&n), Some("stolen_K"), &fresh) {
@@ -214,7 +224,7 @@ fn matrix(rng: &mut Rng, cfg: &CfgLine, keys: &BTreeSet<String>, tables: &Tables
         Target::Unrouted(format!("/{NAME_A}/x")),
     ];
     let root_names: Vec<Option<String>> =
-        vec![Some(NAME_A.into()), Some(NAME_B.into()), Some(NAME_C.into()), Some(PRIMARY.into()), Some(NAME_MISSING.into()), Some(NAME_BAD.into()), None];
+        vec![Some(NAME_A.into()), Some(NAME_B.into()), Some(NAME_C.into()), Some(PRIMARY.into()), Some(NAME_MISSING.into()), Some(NAME_BAD.into()), Some(String::new()), Some(long_name()), None];
     let mut cells: Vec<[Op; 2]> = Vec::new();
     let mut push = |target: Target, auth: &Option<Vec<u8>>, method: &str, name: Option<String>, key: Option<String>, pvar: &str, fb: &mut u32| {
         *fb += 1;
@@ -286,6 +296,62 @@ fn matrix(rng: &mut Rng, cfg: &CfgLine, keys: &BTreeSet<String>, tables: &Tables
     out
 }
 
+/// Every Read-labelled method (both encodings), as the admin, on database A in each lifecycle state:
+/// warm, cold after close/open, cold after a clean restart, database read-only, collection
+/// read-only, dirty after a crash (first touch runs the recovery), closed.
+fn read_sweep(cfg: &CfgLine, tables: &Tables, fresh_base: &mut u32) -> Vec<Op> {
+    let mut out = Vec::new();
+    let mut fresh = |fb: &mut u32| {
+        *fb += 1;
+        format!("$g{}", *fb)
+    };
+    let db_req = |method: &str, pvar: &str, ct: Enc, f: String| {
+        let Op::Req(mut r) = admin_req(cfg, method, None, None, &f) else { unreachable!() };
+        r.target = Target::Db { name: NAME_A.into(), pct: false };
+        r.ct = Some(ct);
+        if let Body::Rpc { pvar: p, .. } = &mut r.body {
+            *p = pvar.into();
+        }
+        Op::Req(r)
+    };
+    let sweep = |out: &mut Vec<Op>, fb: &mut u32| {
+        for (m, (_, read)) in &tables.db {
+            if *read {
+                for ct in [Enc::Cbor, Enc::Json] {
+                    *fb += 1;
+                    out.push(db_req(m, "d", ct, format!("$g{}", *fb)));
+                }
+            }
+        }
+    };
+    out.push(admin_req(cfg, "db.connect", Some(NAME_A), None, &fresh(fresh_base)));
+    out.push(Op::Fixture(NAME_A.into()));
+    sweep(&mut out, fresh_base); // warm
+    out.push(admin_req(cfg, "db.close", Some(NAME_A), None, &fresh(fresh_base)));
+    out.push(admin_req(cfg, "db.open", Some(NAME_A), None, &fresh(fresh_base)));
+    sweep(&mut out, fresh_base); // cold, cleanly closed
+    out.push(Op::Restart);
+    sweep(&mut out, fresh_base); // cold, clean restart
+    out.push(db_req("db.set_read_only", "ro", Enc::Cbor, fresh(fresh_base)));
+    sweep(&mut out, fresh_base); // database read-only
+    out.push(db_req("db.set_read_only", "d", Enc::Cbor, fresh(fresh_base)));
+    out.push(db_req("collection.set_read_only", "ro", Enc::Cbor, fresh(fresh_base)));
+    sweep(&mut out, fresh_base); // collection read-only
+    out.push(db_req("collection.set_read_only", "d", Enc::Cbor, fresh(fresh_base)));
+    out.push(Op::Restart);
+    out.push(db_req("db.set_read_only", "ro", Enc::Cbor, fresh(fresh_base)));
+    sweep(&mut out, fresh_base); // cold open inside a read-only database
+    out.push(db_req("db.set_read_only", "d", Enc::Cbor, fresh(fresh_base)));
+    out.push(db_req("doc.add", "d", Enc::Cbor, fresh(fresh_base)));
+    out.push(db_req("doc.update", "d", Enc::Json, fresh(fresh_base)));
+    out.push(Op::Crash);
+    sweep(&mut out, fresh_base); // dirty after a crash: the first touch of the collection recovers it
+    out.push(admin_req(cfg, "db.close", Some(NAME_A), None, &fresh(fresh_base)));
+    sweep(&mut out, fresh_base); // closed
+    out.push(admin_req(cfg, "db.open", Some(NAME_A), None, &fresh(fresh_base)));
+    out
+}
+
 fn gen_case(rng: &mut Rng, tables: &Tables, thorough: bool) -> Vec<String> {
     let cfg = CfgLine {
         admin: if rng.chance(7, 8) { Some(ADMIN_KEY.to_string()) } else { None },
@@ -308,6 +374,10 @@ fn gen_case(rng: &mut Rng, tables: &Tables, thorough: bool) -> Vec<String> {
         g.history_op(&mut ops);
     }
     let keys = g.keys.clone();
+    let mut fb = 500;
+    if g.rng.chance(1, 2) {
+        ops.extend(read_sweep(&cfg, tables, &mut fb));
+    }
     let mut fb = 1000;
     let full = thorough && g.rng.chance(1, 4);
     ops.extend(matrix(g.rng, &cfg, &keys, tables, &mut fb, full));
@@ -320,7 +390,10 @@ fn gen_case(rng: &mut Rng, tables: &Tables, thorough: bool) -> Vec<String> {
 
 #[derive(Default)]
 pub struct CaseResult {
-    pub evals: Vec<(String, bool)>,
+    /// canonical strings of the non-trivial evaluations only (the trivial ones are just counted:
+    /// a thorough run evaluates tens of millions of requests)
+    pub nontrivial: Vec<String>,
+    pub trivial: u64,
     pub hits: BTreeMap<String, u64>,
     pub model_compared: u64,
     /// (what, index of the op, model, impl)
@@ -371,20 +444,23 @@ pub fn run_case(lines: &[String], driver: Option<&std::path::Path>, tables: &Tab
                     res.hit(if ok { "op:fixture" } else { "op:fixture-skipped" });
                 }
             }
-            Op::Restart => {
+            Op::Restart | Op::Crash => {
                 let Some(w) = world.as_mut() else { continue };
-                let dbs = w.restart();
-                orc.on_restart();
-                res.hit("op:restart");
+                let crash = matches!(op, Op::Crash);
+                let dbs = if crash { w.crash() } else { w.restart() };
+                if crash {
+                    orc.on_crash();
+                }
+                res.hit(if crash { "op:crash" } else { "op:restart" });
                 let imp = format!("ok dbs={}", show_names(&dbs));
                 if let Some(m) = model.as_mut() {
                     let out = m.ask(line);
                     res.model_compared += 1;
                     if out != imp {
-                        res.disagreements.push(("restart: open databases differ".into(), i, out, imp.clone()));
+                        res.disagreements.push(("restart/crash: open databases differ".into(), i, out, imp.clone()));
                     }
                 }
-                res.evals.push((format!("{}|restart|{imp}", orc.fingerprint()), true));
+                res.nontrivial.push(format!("{}|restart|{imp}", orc.fingerprint()));
             }
             Op::Req(r) => {
                 let Some(w) = world.as_mut() else { continue };
@@ -427,13 +503,24 @@ pub fn run_case(lines: &[String], driver: Option<&std::path::Path>, tables: &Tab
                 }
                 orc.observe(r, &resp, w);
                 let nontrivial = resp.status != 401 && matches!(r.target, Target::Root | Target::Db { .. }) && r.verb == "POST" && resp.status < 400;
-                res.evals.push((format!("{fp}|{line}|{canon}"), nontrivial));
+                if nontrivial {
+                    res.nontrivial.push(format!("{fp}|{line}|{canon}"));
+                } else {
+                    res.trivial += 1;
+                }
                 if res.oracle_failures.len() > before {
                     res.hit("oracle:failed");
                 }
                 // --- correspondence ---
+                let trace = std::env::var_os("VH_C14_TRACE").is_some();
+                if trace {
+                    eprintln!("{line}\n      impl : {canon}   [writes {} reads {}]", resp.writes.len(), resp.reads.len());
+                }
                 if let Some(m) = model.as_mut() {
                     let out = m.ask(line);
+                    if trace {
+                        eprintln!("      model: {out}");
+                    }
                     res.model_compared += 1;
                     let mo = strip_note(&out);
                     if let Some(why) = wire::compare(mo, &canon, r, &resp) {
@@ -532,7 +619,7 @@ fn main() {
                 cases.push((format!("corpus:{name}"), lines));
             }
         }
-        let n = args.extra.get("cases").and_then(|c| c.parse().ok()).unwrap_or_else(|| args.budget(28, 400));
+        let n = args.extra.get("cases").and_then(|c| c.parse().ok()).unwrap_or_else(|| args.budget(96, 1200));
         for i in 0..n {
             let mut rng = Rng::for_case(args.seed, i);
             cases.push((format!("gen:{i}"), gen_case(&mut rng, &tables, args.thorough() || args.focus.is_some())));
@@ -561,8 +648,11 @@ fn main() {
     let mut shrunk_keys: BTreeSet<String> = BTreeSet::new();
     for (i, r) in &results {
         let (name, lines) = &cases[*i];
-        for (canon, nt) in &r.evals {
-            report.case(canon, *nt);
+        for canon in &r.nontrivial {
+            report.case(canon, true);
+        }
+        for _ in 0..r.trivial {
+            report.case("", false);
         }
         for (k, v) in &r.hits {
             report.hit_n(k, *v);
